@@ -18,3 +18,7 @@ def run(tier, rep):
         "members that are declared but do not instantiate are found by compile probes and listed as not drivable",
         "the TLA+ reading of std::pair/tuple/invoke/bind_front/not_fn/reference_wrapper is calibrated against libstdc++ (-std=c++23)",
     ]
+
+
+def replay(path):
+    return cpipe.replay(path)
